@@ -123,14 +123,26 @@ impl Probe {
 
     /// Runs the probe under the panic monitor: outcome class or the panic.
     pub fn run(&self, w: &World) -> Result<usize, PanicInfo> {
+        let side;
+        let data;
+        // everything the probe needs is prepared before the allocation limits are armed
         match self {
-            Probe::Read { kind, variant, bytes, side_item } => read_probe(*kind, *variant, bytes, &w.side_of(side_item, *kind)),
-            Probe::DebugFmt { kind, bytes, side_item } => guard::catch(|| crate::dbgfmt::run(*kind, bytes, &w.side_of(side_item, *kind), w.debug_budget_s)),
-            Probe::Codec { codec, bytes, size } => guard::catch(|| io_outcome(&codecs::decode(*codec, bytes, (*size).min(codecs::MAX_SIZE)))),
-            Probe::Query(q) => {
-                let (data, side) = w.data_of(q);
-                guard::catch(|| io_outcome(&queries::run(q, &data, &side)))
+            Probe::Read { kind, side_item, .. } | Probe::DebugFmt { kind, side_item, .. } => {
+                side = w.side_of(side_item, *kind);
+                data = Vec::new();
             }
+            Probe::Query(q) => (data, side) = w.data_of(q),
+            Probe::Codec { .. } => {
+                side = corpus::Side::default();
+                data = Vec::new();
+            }
+        }
+        let _armed = crate::alloc::Armed::new();
+        match self {
+            Probe::Read { kind, variant, bytes, .. } => read_probe(*kind, *variant, bytes, &side),
+            Probe::DebugFmt { kind, bytes, .. } => guard::catch(|| crate::dbgfmt::run(*kind, bytes, &side, w.debug_budget_s)),
+            Probe::Codec { codec, bytes, size } => guard::catch(|| io_outcome(&codecs::decode(*codec, bytes, (*size).min(codecs::MAX_SIZE)))),
+            Probe::Query(q) => guard::catch(|| io_outcome(&queries::run(q, &data, &side))),
         }
     }
 }
